@@ -40,6 +40,10 @@ theorem txSearch_verifies : Facts.c20_txSearch_verifies = true := by decide
 /-- `ValueOp.Run` refuses a proof that computes no root (model: `runOp` returns `computeRoot`) -/
 theorem valueOp_nil_root : Facts.c20_valueOp_nil_root = "rootHash == nil" := by decide
 
+/-- `KeyPathToKeys` undoes `KeyPath.String`'s `url.PathEscape` with `url.PathUnescape` (model:
+`keyRoundTrip` is the identity except for the `x:` prefix; `QueryUnescape` would turn '+' into ' ') -/
+theorem keypath_pathunescape : Facts.c20_keypath_pathunescape = true := by decide
+
 /-- the constants the model takes from the source -/
 theorem constants :
     blockProtocol = 11 ∧ maxChainIDLen = 50 ∧ addressSize = 20 ∧ maxBlockSizeBytes = 104857600 ∧
